@@ -63,6 +63,21 @@ func (pm *PublicMaterial[E, S]) PublicKey() *schnorrlike.PublicKey[E, S] {
 }
 
 // Shard represents a party's secret key share for MPC Schnorr signing.
+// UnmarshalCBOR deserialises the public material into pm. The cached public
+// key is reset so that PublicKey() is derived from the reloaded material even
+// when pm previously held (and served) another key.
+func (pm *PublicMaterial[E, S]) UnmarshalCBOR(data []byte) error {
+	if pm == nil {
+		return ErrInvalidArgument.WithMessage("public material is nil")
+	}
+	if err := pm.BasePublicMaterial.UnmarshalCBOR(data); err != nil {
+		return errs.Wrap(err).WithMessage("failed to unmarshal public material")
+	}
+	pm.pk = nil
+	pm.pkOnce = sync.Once{}
+	return nil
+}
+
 type Shard[
 	E algebra.PrimeGroupElement[E, S],
 	S algebra.PrimeFieldElement[S],
@@ -95,6 +110,21 @@ func (sh *Shard[E, S]) PublicKey() *schnorrlike.PublicKey[E, S] {
 }
 
 // Equal returns true if this shard equals another shard.
+// UnmarshalCBOR deserialises the shard into sh. The cached public key is reset
+// so that PublicKey() is derived from the reloaded material even when sh
+// previously held (and served) another key.
+func (sh *Shard[E, S]) UnmarshalCBOR(data []byte) error {
+	if sh == nil {
+		return ErrInvalidArgument.WithMessage("shard is nil")
+	}
+	if err := sh.BaseShard.UnmarshalCBOR(data); err != nil {
+		return errs.Wrap(err).WithMessage("failed to unmarshal shard")
+	}
+	sh.pk = nil
+	sh.pkOnce = sync.Once{}
+	return nil
+}
+
 func (sh *Shard[E, S]) Equal(other mpcsig.Shard[*schnorrlike.PublicKey[E, S], *feldman.Share[S]]) bool {
 	o, ok := other.(*Shard[E, S])
 	return ok && sh.BaseShard.Equal(&o.BaseShard)
